@@ -16,7 +16,10 @@ from fractions import Fraction
 VERIF = os.path.dirname(os.path.dirname(os.path.dirname(os.path.abspath(__file__))))
 COQ = os.path.join(VERIF, 'coq')
 BUILD = os.path.join(VERIF, 'build')
-CASES = os.path.join(BUILD, 'cases')
+# one directory of generated case files per (property, tier): two checks running at the same time must not remove each other's files
+_P = next((a_ for a_ in sys.argv[1:] if re.fullmatch(r'C\d\d', a_)), 'misc')
+_T = 'thorough' if (any('thorough' in a_ for a_ in sys.argv[1:]) or os.environ.get('VERIF_TIER') == 'thorough') else 'quick'
+CASES = os.path.join(BUILD, 'cases', '%s-%s' % (_P, _T))
 REPO = os.environ.get('NDT_REPO', '/repo')
 SRC = os.path.join(REPO, 'src', 'numdifftools')
 COQFLAGS = ['-q', '-w', '-all', '-Q', COQ, 'NDT']
@@ -84,7 +87,8 @@ METHOD = {'central': 'Central', 'central2': 'Central2', 'forward': 'Forward', 'b
 
 # ---------------------------------------------------------------- translator and build
 def translate():
-    rc, out = sh([sys.executable, os.path.join(VERIF, 'tools', 'ndt_translate.py')], timeout=60)
+    with Lock():       # (the generated files are read by make: never rewrite them while another check builds)
+        rc, out = sh([sys.executable, os.path.join(VERIF, 'tools', 'ndt_translate.py')], timeout=60)
     return rc == 0, out.strip()
 
 
@@ -345,7 +349,7 @@ class Ctx:
         if rule:
             self.cov['rule'] = rule
         if checker_cmd:
-            self.cov['checker_cmd'] = checker_cmd
+            self.cov['checker_cmd'] = checker_cmd.replace('build/cases/', 'build/cases/%s-%s/' % (_P, _T))
         ev = {'property_id': self.prop, 'tier': self.tier, 'seed': int(self.seed), 'level': level,
               'coverage': self.cov, 'assumptions': self.assumptions, 'wall_s': round(time.time() - self.t0, 2),
               'violations': len(self.violations) + (1 if (self.broken and not self.violations) else 0)}
